@@ -8,9 +8,11 @@ package main
 import (
 	"fmt"
 	"go/ast"
+	"go/token"
 	"go/types"
 	"runtime"
 	"sort"
+	"strconv"
 	"strings"
 
 	"verifharness/hx"
@@ -18,9 +20,9 @@ import (
 
 type c04Mirror struct {
 	name    string
-	body    string                                  // body of `func <name>(ctx *dsl.VarFilterContext) bool`
-	builtin string                                  // mirrored built-in predicate over m["x"] ("" = none)
-	oracle  func(t types.Type, tg *hx.Target) bool  // go/types says
+	body    string                                 // body of `func <name>(ctx *dsl.VarFilterContext) bool`
+	builtin string                                 // mirrored built-in predicate over m["x"] ("" = none)
+	oracle  func(t types.Type, tg *hx.Target) bool // go/types says
 }
 
 func c04Named(tg *hx.Target, name string) types.Type {
@@ -36,11 +38,17 @@ var c04Mirrors = []c04Mirror{
 			return types.Implements(t, types.Universe.Lookup("error").Type().Underlying().(*types.Interface))
 		}},
 	{"isIntSlice", `return types.Identical(ctx.Type, types.NewSlice(ctx.GetType("int")))`, `m["x"].Type.Is("[]int")`,
-		func(t types.Type, tg *hx.Target) bool { return types.Identical(t, types.NewSlice(types.Typ[types.Int])) }},
+		func(t types.Type, tg *hx.Target) bool {
+			return types.Identical(t, types.NewSlice(types.Typ[types.Int]))
+		}},
 	{"isIntPtr", `return types.Identical(ctx.Type, types.NewPointer(ctx.GetType("int")))`, `m["x"].Type.Is("*int")`,
-		func(t types.Type, tg *hx.Target) bool { return types.Identical(t, types.NewPointer(types.Typ[types.Int])) }},
+		func(t types.Type, tg *hx.Target) bool {
+			return types.Identical(t, types.NewPointer(types.Typ[types.Int]))
+		}},
 	{"isArr3", `return types.Identical(ctx.Type, types.NewArray(ctx.GetType("int"), 3))`, `m["x"].Type.Is("[3]int")`,
-		func(t types.Type, tg *hx.Target) bool { return types.Identical(t, types.NewArray(types.Typ[types.Int], 3)) }},
+		func(t types.Type, tg *hx.Target) bool {
+			return types.Identical(t, types.NewArray(types.Typ[types.Int], 3))
+		}},
 	{"isStruct", `return types.AsStruct(ctx.Type.Underlying()) != nil`, `m["x"].Type.Underlying().Is("struct{$*_}")`,
 		func(t types.Type, tg *hx.Target) bool { _, ok := t.Underlying().(*types.Struct); return ok }},
 	{"isPtr", `return types.AsPointer(ctx.Type) != nil`, `m["x"].Type.Is("*$_")`,
@@ -61,7 +69,10 @@ var c04Mirrors = []c04Mirror{
 			return ok && types.Identical(s.Elem(), types.Typ[types.String])
 		}},
 	{"arrLen3", `a := types.AsArray(ctx.Type.Underlying()); return a != nil && a.Len() == 3`, ``,
-		func(t types.Type, tg *hx.Target) bool { a, ok := t.Underlying().(*types.Array); return ok && a.Len() == 3 }},
+		func(t types.Type, tg *hx.Target) bool {
+			a, ok := t.Underlying().(*types.Array)
+			return ok && a.Len() == 3
+		}},
 	{"ptrToStruct", `p := types.AsPointer(ctx.Type); return p != nil && types.AsStruct(p.Elem().Underlying()) != nil`, `m["x"].Type.Is("*$t") && !m["x"].Type.Is("*int")`,
 		func(t types.Type, tg *hx.Target) bool {
 			p, ok := t.(*types.Pointer)
@@ -72,7 +83,10 @@ var c04Mirrors = []c04Mirror{
 			return ok
 		}},
 	{"twoFields", `s := types.AsStruct(ctx.Type.Underlying()); return s != nil && s.NumFields() == 2`, ``,
-		func(t types.Type, tg *hx.Target) bool { s, ok := t.Underlying().(*types.Struct); return ok && s.NumFields() == 2 }},
+		func(t types.Type, tg *hx.Target) bool {
+			s, ok := t.Underlying().(*types.Struct)
+			return ok && s.NumFields() == 2
+		}},
 	{"firstFieldInt", `s := types.AsStruct(ctx.Type.Underlying()); return s != nil && s.NumFields() > 0 && types.Identical(s.Field(0).Type(), ctx.GetType("int"))`, ``,
 		func(t types.Type, tg *hx.Target) bool {
 			s, ok := t.Underlying().(*types.Struct)
@@ -84,7 +98,9 @@ var c04Mirrors = []c04Mirror{
 			return ok && s.NumFields() > 0 && s.Field(0).Embedded()
 		}},
 	{"identLocalNamed", `return types.Identical(ctx.Type, ctx.GetType("error"))`, `m["x"].Type.Is("error")`,
-		func(t types.Type, tg *hx.Target) bool { return types.Identical(t, types.Universe.Lookup("error").Type()) }},
+		func(t types.Type, tg *hx.Target) bool {
+			return types.Identical(t, types.Universe.Lookup("error").Type())
+		}},
 	{"typeString", `return ctx.Type.String() == "[]string"`, ``,
 		func(t types.Type, tg *hx.Target) bool { return t.String() == "[]string" }},
 }
@@ -151,39 +167,230 @@ func f(i int, s string, is []int, ss []string, st Strs, a3 A3, arr [3]int, arr4 
 	probe(i + 1)
 	probe(nil)
 }
+
+// captures that are not a single expression: expression lists, statements, absent optional parts
+
+var mark bool
+
+func probeN(...interface{}) {}
+func fn(int) int         { return 0 }
+func fv(...int)          {}
+func ferr() error        { return nil }
+func fptr() *S2          { return nil }
+func fss() []string      { return nil }
+func fme() MyErr         { return MyErr{} }
+func fa3() [3]int        { return [3]int{} }
+
+func lists(i int, s string, ss []string, is []int, ps *S2, err error, a3 A3, s2 S2, u8 uint8) {
+	probeN()
+	probeN(i)
+	probeN(s)
+	probeN(ss)
+	probeN(is)
+	probeN(ps)
+	probeN(err)
+	probeN(a3)
+	probeN(s2)
+	probeN(u8)
+	probeN(nil)
+	probeN(i, s)
+	probeN(i, i)
+	probeN(ss, ss)
+	probeN(is, ps)
+	probeN(err, err, err)
+	probeN(a3, ps, 1)
+	probeN(ps, &s2)
+}
+
+func stmts(i int, ss []string, ps *S2, ch chan int, chs chan []string) {
+	if mark {
+		fn(i)
+	}
+	if mark {
+		ferr()
+	}
+	if mark {
+		fptr()
+	}
+	if mark {
+		fss()
+	}
+	if mark {
+		fme()
+	}
+	if mark {
+		fa3()
+	}
+	if mark {
+		fv(1, 2)
+	}
+	if mark {
+		<-ch
+	}
+	if mark {
+		<-chs
+	}
+	if mark {
+		(fn(i))
+	}
+	if mark {
+		i++
+	}
+	if mark {
+		i = 1
+	}
+	if mark {
+		return
+	}
+	if mark {
+		ps.a = 2
+	}
+	if mark {
+		var _ int
+	}
+	if mark {
+		go fn(1)
+	}
+	if mark {
+		ss = append(ss, "x")
+	}
+	if mark {
+		ch <- 1
+	}
+}
+
+func opt(i int, ss []string) {
+	if i > 0 {
+	}
+	if x := fn(1); x > 0 {
+	}
+	if i++; i > 0 {
+	}
+	if ss = nil; i > 0 {
+	}
+}
+
+func r0()                    {}
+func r1() int                { return 1 }
+func r1e() error             { return nil }
+func r1p() *S2               { return nil }
+func r1s() []string          { return nil }
+func r1a() [3]int            { return [3]int{} }
+func r1m() MyErr             { return MyErr{} }
+func r2() (int, string)      { return 1, "" }
+func r3() (n int, err error) { return }
 `
 
-// c04Natives runs the mirror suite; violations carry signature `natives:<mirror>`.
+// Capture classes of the natives suite: the pattern, and how the capture `x` of a match is derived from the
+// syntax tree by the harness itself (gogrep's matching is trusted; what the natives make of the capture is not).
+var c04CapturePatterns = []string{
+	"probe($x)",            // a single expression
+	"probeN($*x)",          // an expression list (0, 1, several elements)
+	"if mark { $x }",       // a statement: expression statements (typed like their expression) and others
+	"if $*x; $_ { $*_ }",   // an optional part: absent (nil capture) or a statement
+	"func $_() $x { $*_ }", // an optional part: absent (typed nil capture), a type expression, a field list
+}
+
+// c04Site is one match of one capture pattern, with what the property says about the capture `x`.
+type c04Site struct {
+	pat   int
+	pos   int        // offset of the matched node ($$)
+	text  string     // source text of the capture ("" when absent / empty)
+	typ   types.Type // go/types type of the capture (types.Typ[types.Invalid] when it has none)
+	class string
+	show  string
+}
+
+func c04CollectSites(tg *hx.Target) []c04Site {
+	var sites []c04Site
+	off := func(p token.Pos) int { return tg.Fset.Position(p).Offset }
+	text := func(from, to token.Pos) string { return string(tg.Src[off(from):off(to)]) }
+	invalid := types.Typ[types.Invalid]
+	typeOf := func(e ast.Expr) types.Type {
+		if t := tg.Info.TypeOf(e); t != nil {
+			return t
+		}
+		return invalid
+	}
+	ast.Inspect(tg.File, func(n ast.Node) bool {
+		switch n := n.(type) {
+		case *ast.CallExpr:
+			id, ok := n.Fun.(*ast.Ident)
+			if !ok {
+				return true
+			}
+			switch {
+			case id.Name == "probe" && len(n.Args) == 1:
+				a := n.Args[0]
+				sites = append(sites, c04Site{pat: 0, pos: off(n.Pos()), text: text(a.Pos(), a.End()), typ: typeOf(a), class: "expr"})
+			case id.Name == "probeN":
+				st := c04Site{pat: 1, pos: off(n.Pos()), typ: invalid, class: fmt.Sprintf("list-of-%d", len(n.Args))}
+				if len(n.Args) > 2 {
+					st.class = "list-of-many"
+				}
+				if len(n.Args) > 0 {
+					st.text = text(n.Args[0].Pos(), n.Args[len(n.Args)-1].End())
+				}
+				sites = append(sites, st)
+			}
+		case *ast.IfStmt:
+			if n.Else != nil {
+				return true
+			}
+			if id, ok := n.Cond.(*ast.Ident); ok && id.Name == "mark" && n.Init == nil && len(n.Body.List) == 1 {
+				b := n.Body.List[0]
+				st := c04Site{pat: 2, pos: off(n.Pos()), text: text(b.Pos(), b.End()), typ: invalid, class: "stmt-other"}
+				if es, ok := b.(*ast.ExprStmt); ok {
+					// an expression statement has the type of its expression
+					st.typ, st.class = typeOf(es.X), "stmt-expr"
+				}
+				sites = append(sites, st)
+			}
+			st := c04Site{pat: 3, pos: off(n.Pos()), typ: invalid, class: "optional-absent"}
+			if n.Init != nil {
+				st.text, st.class = text(n.Init.Pos(), n.Init.End()), "optional-stmt"
+			}
+			sites = append(sites, st)
+		case *ast.FuncDecl:
+			if n.Recv != nil || n.Type.Params.NumFields() != 0 || n.Body == nil || n.Type.TypeParams != nil {
+				return true
+			}
+			st := c04Site{pat: 4, pos: off(n.Pos()), typ: invalid, class: "optional-absent-typed-nil"}
+			if r := n.Type.Results; r != nil {
+				if len(r.List) == 1 && len(r.List[0].Names) == 0 && !r.Opening.IsValid() {
+					st.text, st.typ, st.class = text(r.List[0].Type.Pos(), r.List[0].Type.End()), typeOf(r.List[0].Type), "type-expr"
+				} else {
+					st.text, st.class = text(r.Pos(), r.End()), "field-list"
+				}
+			}
+			sites = append(sites, st)
+		}
+		return true
+	})
+	for i := range sites {
+		sites[i].show = fmt.Sprintf("%s: x = %q", c04CapturePatterns[sites[i].pat], sites[i].text)
+	}
+	return sites
+}
+
+// c04Natives runs the mirror suite; violations carry signature `natives:<mirror>` (single-expression captures)
+// or `natives:<mirror>@<capture class>`.
 func c04Natives(c *Ctx) error {
 	res := c.Res
 	tg, err := hx.ParseTarget("c04n.go", c04NativesTarget)
 	if err != nil {
 		return fmt.Errorf("natives target: %v", err)
 	}
-	// probe sites in order
-	type site struct {
-		text string
-		typ  types.Type
-		pos  int
-	}
-	var sites []site
-	ast.Inspect(tg.File, func(n ast.Node) bool {
-		call, ok := n.(*ast.CallExpr)
-		if !ok {
-			return true
-		}
-		if id, ok := call.Fun.(*ast.Ident); !ok || id.Name != "probe" || len(call.Args) != 1 {
-			return true
-		}
-		arg := call.Args[0]
-		from, to := tg.Fset.Position(arg.Pos()).Offset, tg.Fset.Position(arg.End()).Offset
-		sites = append(sites, site{text: string(tg.Src[from:to]), typ: tg.Info.TypeOf(arg), pos: tg.Fset.Position(call.Pos()).Offset})
-		return true
-	})
+	sites := c04CollectSites(tg)
 	// one engine per rule: the first accepting rule wins per node across all groups of an engine
 	header := "package gorules\n\nimport (\n\t\"github.com/quasilyte/go-ruleguard/dsl\"\n\t\"github.com/quasilyte/go-ruleguard/dsl/types\"\n)\n\nvar _ = types.Identical\n\n"
-	got := map[string]map[int]bool{} // message -> set of site positions
-	describe := map[int]string{}
+	type key struct {
+		msg string
+		pos int
+	}
+	got := map[key]bool{}
+	describe := map[key]string{}
+	suggest := map[key]string{}
 	runOne := func(decl, rule string) error {
 		full := header + decl + "func g(m dsl.Matcher) {\n\t" + rule + "\n}\n"
 		e, lerr := hx.LoadRules(full)
@@ -199,56 +406,93 @@ func c04Natives(c *Ctx) error {
 			return nil
 		}
 		for _, r := range rs {
-			if strings.Contains(r.Message, " :: ") {
-				describe[r.Pos] = r.Message
+			if i := strings.Index(r.Message, " :: "); i >= 0 {
+				k := key{r.Message[:strings.Index(r.Message, "|")], r.Pos}
+				describe[k] = r.Message[strings.Index(r.Message, "|")+1:]
+				if r.HasSugg {
+					suggest[k] = r.Repl
+				}
 				continue
 			}
-			if got[r.Message] == nil {
-				got[r.Message] = map[int]bool{}
-			}
-			got[r.Message][r.Pos] = true
+			got[key{r.Message, r.Pos}] = true
 		}
 		return nil
 	}
-	for _, m := range c04Mirrors {
-		decl := fmt.Sprintf("func %s(ctx *dsl.VarFilterContext) bool {\n\t%s\n}\n\n", m.name, strings.ReplaceAll(m.body, "; ", "\n\t"))
-		if err := runOne(decl, fmt.Sprintf("m.Match(`probe($x)`).Where(m[\"x\"].Filter(%s)).Report(\"custom %s\")", m.name, m.name)); err != nil {
-			return err
-		}
-		if m.builtin != "" {
-			if err := runOne("", fmt.Sprintf("m.Match(`probe($x)`).Where(%s).Report(\"builtin %s\")", m.builtin, m.name)); err != nil {
+	for pi, pat := range c04CapturePatterns {
+		for _, m := range c04Mirrors {
+			decl := fmt.Sprintf("func %s(ctx *dsl.VarFilterContext) bool {\n\t%s\n}\n\n", m.name, strings.ReplaceAll(m.body, "; ", "\n\t"))
+			if err := runOne(decl, fmt.Sprintf("m.Match(`%s`).Where(m[\"x\"].Filter(%s)).Report(\"custom %d %s\")", pat, m.name, pi, m.name)); err != nil {
 				return err
 			}
+			if m.builtin != "" {
+				if err := runOne("", fmt.Sprintf("m.Match(`%s`).Where(%s).Report(\"builtin %d %s\")", pat, m.builtin, pi, m.name)); err != nil {
+					return err
+				}
+			}
+		}
+		// DoContext.Var / SetReport / SetSuggest, DoVar.Text / Type
+		if err := runOne("func describe(ctx *dsl.DoContext) {\n\tctx.SetReport(\""+fmt.Sprint(pi)+"|\" + ctx.Var(\"x\").Text() + \" :: \" + ctx.Var(\"x\").Type().String())\n"+
+			"\tctx.SetSuggest(\"<\" + ctx.Var(\"x\").Text() + \">\")\n}\n\n", "m.Match(`"+pat+"`).Do(describe)"); err != nil {
+			return err
 		}
 	}
-	if err := runOne("func describe(ctx *dsl.DoContext) {\n\tctx.SetReport(ctx.Var(\"x\").Text() + \" :: \" + ctx.Var(\"x\").Type().String())\n}\n\n", "m.Match(`probe($x)`).Do(describe)"); err != nil {
-		return err
+	for _, s := range sites {
+		res.Dist("natives:capture:" + s.class)
 	}
 	for _, m := range c04Mirrors {
 		for _, s := range sites {
 			want := m.oracle(s.typ, tg)
-			have := got["custom "+m.name][s.pos]
-			res.Count("natives", m.name+"/"+s.text, want)
+			have := got[key{fmt.Sprintf("custom %d %s", s.pat, m.name), s.pos}]
+			res.Count("natives", fmt.Sprintf("%s/%d/%d", m.name, s.pat, s.pos), want || s.pat != 0)
+			sig := "natives:" + m.name
 			in := map[string]interface{}{"helper": m.name, "body": m.body, "site": "probe(" + s.text + ")", "type": s.typ.String()}
+			if s.pat != 0 {
+				sig += "@" + s.class
+				in["site"], in["capture_class"] = s.show, s.class
+			}
 			if have != want {
-				res.Violate(hx.Violation{Signature: "natives:" + m.name, What: "custom filter built on the dsl/types API disagrees with go/types", Input: in,
+				res.Violate(hx.Violation{Signature: sig, What: "custom filter built on the dsl/types API disagrees with go/types", Input: in,
 					Impl: fmt.Sprint(have), Spec: fmt.Sprint(want)})
 			}
-			if m.builtin != "" {
-				if hb := got["builtin "+m.name][s.pos]; hb != have {
-					res.Violate(hx.Violation{Signature: "natives:" + m.name + "-vs-builtin", What: "custom filter and the built-in predicate it mirrors (" + m.builtin + ") disagree", Input: in,
+			// the built-in predicates hold for every element of a list capture (C02): only captures that are
+			// one node or none are expected to be mirrored
+			if m.builtin != "" && s.pat != 1 {
+				if hb := got[key{fmt.Sprintf("builtin %d %s", s.pat, m.name), s.pos}]; hb != have {
+					res.Violate(hx.Violation{Signature: sig + "-vs-builtin", What: "custom filter and the built-in predicate it mirrors (" + m.builtin + ") disagree", Input: in,
 						Impl: fmt.Sprintf("custom=%v builtin=%v", have, hb), Spec: "equal"})
 				}
 			}
 		}
 	}
-	// DoVar.Text / DoVar.Type
+	// DoVar.Text / DoVar.Type / SetSuggest on every capture class; the Do rule has no filter: it reports every match
+	seen := map[key]bool{}
 	for _, s := range sites {
+		k := key{fmt.Sprint(s.pat), s.pos}
+		seen[k] = true
 		want := s.text + " :: " + s.typ.String()
-		res.Count("natives", "describe/"+s.text, true)
-		if describe[s.pos] != want {
-			res.Violate(hx.Violation{Signature: "natives:DoVar.Text/Type", What: "Do function sees a different text/type than the source and go/types", Input: map[string]interface{}{"site": s.text},
-				Impl: describe[s.pos], Spec: want})
+		res.Count("natives", fmt.Sprintf("describe/%d/%d", s.pat, s.pos), true)
+		sig := "natives:DoVar.Text/Type"
+		if s.pat != 0 {
+			sig += "@" + s.class
+		}
+		have, ok := describe[k]
+		if !ok {
+			have = "(no report)"
+		}
+		if have != want {
+			res.Violate(hx.Violation{Signature: sig, What: "Do function sees a different text/type than the source and go/types", Input: map[string]interface{}{"site": s.show},
+				Impl: have, Spec: want})
+		}
+		if sg := suggest[k]; ok && sg != "<"+s.text+">" {
+			res.Violate(hx.Violation{Signature: strings.Replace(sig, "DoVar.Text/Type", "DoContext.SetSuggest", 1), What: "the suggestion set by a Do function from DoVar.Text is not the capture's text",
+				Input: map[string]interface{}{"site": s.show}, Impl: sg, Spec: "<" + s.text + ">"})
+		}
+	}
+	for k := range describe {
+		if !seen[k] {
+			// the harness derives the matches of each pattern from the syntax tree itself: a match it did not expect
+			// means that derivation is wrong, not the code
+			return fmt.Errorf("natives suite: pattern %s matched at offset %d, which the harness did not derive as a site", c04CapturePatterns[atoiOr(k.msg, 0)], k.pos)
 		}
 	}
 	var names []string
@@ -256,8 +500,16 @@ func c04Natives(c *Ctx) error {
 		names = append(names, m.name)
 	}
 	sort.Strings(names)
-	res.Sample(map[string]interface{}{"natives_helpers": names, "sites": len(sites)})
+	res.Sample(map[string]interface{}{"natives_helpers": names, "sites": len(sites), "capture_patterns": c04CapturePatterns})
 	res.Distribution["natives:helpers"] = len(c04Mirrors)
 	res.Distribution["natives:sites"] = len(sites)
 	return nil
+}
+
+func atoiOr(s string, d int) int {
+	n, err := strconv.Atoi(s)
+	if err != nil {
+		return d
+	}
+	return n
 }
